@@ -975,6 +975,74 @@ func declImportCase(rt *rapid.T) *modelCase {
 	}
 }
 
+// failedAttemptCase: a statement pattern that records a good deal before it
+// comes to a choice - 0-6 context statements with several tokens each, 0-9
+// imports under metavariable names - then "...", a declaration that binds
+// two metavariables, "...", and a return that uses one of them. The file has
+// 1-3 declarations of that shape before the one the return refers to: each
+// is tried and given up, and what it bound must be forgotten.
+func failedAttemptCase(rt *rapid.T) *modelCase {
+	k := rapid.IntRange(0, 6).Draw(rt, "contextStatements")
+	ni := rapid.SampledFrom([]int{0, 0, 1, 4, 9}).Draw(rt, "imports")
+	decoys := rapid.IntRange(1, 3).Draw(rt, "decoys")
+	ctx := []string{"ctxA(1, 2)", "ctxB(\"s\", 3, cq.d)", "ctxC(pq.q, rq[0], -1)", "ctxD(func() {})", "ctxE(mq[\"k\"], &tq, 4)", "ctxF(1, 2, 3, 4, 5, 6)"}[:k]
+	spec := ref.Spec{Holes: map[string]ref.HoleKind{"hv1": ref.IdentHole, "hv2": ref.ExprHole}}
+	var patch, imports strings.Builder
+	patch.WriteString("@@\nvar hv1 identifier\nvar hv2 expression\n")
+	for i := 0; i < ni; i++ {
+		fmt.Fprintf(&patch, "var im%d identifier\n", i)
+		spec.Holes[fmt.Sprintf("im%d", i)] = ref.IdentHole
+	}
+	patch.WriteString("@@\n")
+	for i := 0; i < ni; i++ {
+		fmt.Fprintf(&patch, " import im%d \"example.com/many/p%d\"\n", i, i)
+		fmt.Fprintf(&imports, "import q%d \"example.com/many/p%d\"\n", i, i)
+		spec.ImportsMinus = append(spec.ImportsMinus, ref.Import{Name: fmt.Sprintf("im%d", i), Path: fmt.Sprintf("example.com/many/p%d", i)})
+		spec.ImportsPlus = append(spec.ImportsPlus, ref.Import{Name: fmt.Sprintf("im%d", i), Path: fmt.Sprintf("example.com/many/p%d", i)})
+	}
+	if ni > 0 {
+		patch.WriteString("\n")
+	}
+	var minus, plus []string
+	for _, c := range ctx {
+		patch.WriteString(" " + c + "\n")
+		minus = append(minus, c)
+		plus = append(plus, c)
+	}
+	patch.WriteString(" ...\n hv1 := hv2\n ...\n-return hv1\n+return hv2\n")
+	minus = append(minus, "DOTS__1", "hv1 := hv2", "DOTS__2", "return hv1")
+	plus = append(plus, "DOTS__1", "hv1 := hv2", "DOTS__2", "return hv2")
+	spec.Minus, spec.Plus = strings.Join(minus, "\n"), strings.Join(plus, "\n")
+	var body strings.Builder
+	for _, c := range ctx {
+		body.WriteString("\t" + c + "\n")
+	}
+	names := []string{"a", "b", "c", "d"}
+	for i := 0; i <= decoys; i++ {
+		if i == 0 {
+			fmt.Fprintf(&body, "\t%s := n * 2\n\tuse(%s)\n", names[i], names[i])
+		} else {
+			fmt.Fprintf(&body, "\t%s := %s + %d\n\tuse(%s)\n", names[i], names[i-1], i, names[i])
+		}
+	}
+	fmt.Fprintf(&body, "\treturn %s\n", names[decoys])
+	// a second function with the same shape: sites are independent
+	second := ""
+	if rapid.Bool().Draw(rt, "secondFunction") {
+		second = "\nfunc g(n int) int {\n" + strings.ReplaceAll(body.String(), "n * 2", "n * 3") + "}\n"
+	}
+	uses := ""
+	for i := 0; i < ni; i++ {
+		uses += fmt.Sprintf("var _ = q%d.X\n", i)
+	}
+	return &modelCase{
+		Spec:   spec,
+		Patch:  patch.String(),
+		Host:   "package attempts\n\n" + imports.String() + "\n" + uses + "\nfunc f(n int) int {\n" + body.String() + "}\n" + second,
+		Origin: "synthetic:failed-attempts",
+	}
+}
+
 // nestedChoiceCase: a metavariable occurs in a list with elisions that is
 // nested in the pattern, and again after that list. Whether code is an
 // instance can then depend on which element of the nested list the
@@ -1092,6 +1160,10 @@ func (mc *modelCheck) run(t *testing.T) {
 				mc.judge(rt, c, declImportCase(rt))
 				return
 			}
+		}
+		if mc.Prop == "C02" && rapid.IntRange(0, 19).Draw(rt, "failedAttempts") == 0 {
+			mc.judge(rt, c, failedAttemptCase(rt))
+			return
 		}
 		if mc.Prop == "C02" && rapid.IntRange(0, 14).Draw(rt, "importBound") == 0 {
 			c02iRun(rt, c)
